@@ -1,3 +1,781 @@
 package main
 
-func trieMain(args []string) {}
+// C20 (part 1): model-based history checking of the alias store.
+// The real alias_trie is driven with the parser's own key predicates (tokenEqual / tokenLess)
+// exactly as the parser drives it (aliasExists = Contains && value != nil, then Insert;
+// Search with a key generator for call matching and for "enumerate everything").
+// Model: a plain list; a key is present iff some inserted key is element-wise tokenEqual to it.
+
+import (
+	"flag"
+	"fmt"
+	"runtime"
+	"sort"
+	"strings"
+
+	"github.com/DDP-Projekt/Kompilierer/src/ast"
+	"github.com/DDP-Projekt/Kompilierer/src/ddptypes"
+	"github.com/DDP-Projekt/Kompilierer/src/parser"
+	at "github.com/DDP-Projekt/Kompilierer/src/parser/alias_trie"
+	"github.com/DDP-Projekt/Kompilierer/src/token"
+)
+
+type vTok struct {
+	tok  *token.Token
+	desc string // printable, unambiguous (distinct look-alike types carry an index)
+}
+
+type vKey struct {
+	toks []*vTok
+}
+
+func (k vKey) String() string {
+	s := make([]string, len(k.toks))
+	for i, t := range k.toks {
+		s[i] = t.desc
+	}
+	return strings.Join(s, " ")
+}
+
+func (k vKey) key() []*token.Token {
+	r := make([]*token.Token, len(k.toks))
+	for i, t := range k.toks {
+		r[i] = t.tok
+	}
+	return r
+}
+
+type vocab struct {
+	words, lits, params []*vTok
+	byName               map[string]*vTok
+}
+
+func word(s string) *vTok {
+	return &vTok{tok: &token.Token{Type: token.IDENTIFIER, Literal: s}, desc: s}
+}
+
+func buildVocab() *vocab {
+	v := &vocab{byName: map[string]*vTok{}}
+	for _, w := range []string{"foo", "bar", "zeige"} {
+		v.words = append(v.words, word(w))
+	}
+	v.lits = append(v.lits,
+		&vTok{tok: &token.Token{Type: token.INT, Literal: "1"}, desc: "1"},
+		&vTok{tok: &token.Token{Type: token.INT, Literal: "2"}, desc: "2"},
+		&vTok{tok: &token.Token{Type: token.STRING, Literal: "\"s\""}, desc: "\"s\""})
+	type nt struct {
+		name string
+		t    ddptypes.Type
+	}
+	var tys []nt
+	for _, p := range []ddptypes.PrimitiveType{ddptypes.ZAHL, ddptypes.KOMMAZAHL, ddptypes.BYTE, ddptypes.WAHRHEITSWERT, ddptypes.BUCHSTABE, ddptypes.TEXT} {
+		tys = append(tys, nt{p.String(), p})
+	}
+	tys = append(tys, nt{"Variable", ddptypes.VARIABLE})
+	tys = append(tys, nt{"L(Zahl)", ddptypes.ListType{ElementType: ddptypes.ZAHL}}, nt{"L(Text)", ddptypes.ListType{ElementType: ddptypes.TEXT}})
+	// distinct types that print alike: Kombinationen named Punkt (as declared by several modules)
+	var punkte []ddptypes.Type
+	for i := 1; i <= 4; i++ {
+		p := &ddptypes.StructType{Name: "Punkt", GramGender: ddptypes.MASKULIN, Fields: []ddptypes.StructField{{Name: "x", Type: ddptypes.ZAHL}}}
+		punkte = append(punkte, p)
+		tys = append(tys, nt{fmt.Sprintf("Punkt#%d", i), p})
+	}
+	for i := 1; i <= 3; i++ {
+		tys = append(tys, nt{fmt.Sprintf("L(Punkt#%d)", i), ddptypes.ListType{ElementType: punkte[i-1]}})
+	}
+	// definitions named alike
+	for i := 1; i <= 3; i++ {
+		tys = append(tys, nt{fmt.Sprintf("Nummer#%d", i), &ddptypes.TypeDef{Name: "Nummer", Underlying: ddptypes.ZAHL, GramGender: ddptypes.FEMININ}})
+	}
+	// an alias and its target, a list of the alias and the list of the target (equal keys, different objects)
+	az := &ddptypes.TypeAlias{Name: "Hausnummer", Underlying: ddptypes.ZAHL, GramGender: ddptypes.FEMININ}
+	tys = append(tys, nt{"Alias(Zahl)", az}, nt{"L(Alias(Zahl))", ddptypes.ListType{ElementType: az}})
+	// an alias of a Punkt (equal to Punkt#1)
+	tys = append(tys, nt{"Alias(Punkt#1)", &ddptypes.TypeAlias{Name: "Ort", Underlying: punkte[0], GramGender: ddptypes.MASKULIN}})
+	// differently named Kombination
+	tys = append(tys, nt{"Kreis", &ddptypes.StructType{Name: "Kreis", GramGender: ddptypes.MASKULIN, Fields: []ddptypes.StructField{{Name: "r", Type: ddptypes.ZAHL}}}})
+	for _, ty := range tys {
+		for _, ref := range []bool{false, true} {
+			d := "<" + ty.name
+			if ref {
+				d += " Ref"
+			}
+			d += ">"
+			v.params = append(v.params, &vTok{tok: &token.Token{Type: token.ALIAS_PARAMETER, Literal: "<p>", AliasInfo: &ddptypes.ParameterType{Type: ty.t, IsReference: ref}}, desc: d})
+		}
+	}
+	for _, l := range [][]*vTok{v.words, v.lits, v.params} {
+		for _, t := range l {
+			v.byName[t.desc] = t
+		}
+	}
+	return v
+}
+
+func (v *vocab) all() []*vTok {
+	var r []*vTok
+	r = append(r, v.words...)
+	r = append(r, v.lits...)
+	r = append(r, v.params...)
+	return r
+}
+
+// parse "zeige <Punkt#1> bar" into a key
+func (v *vocab) mk(s string) vKey {
+	var k vKey
+	for _, f := range splitKey(s) {
+		t, ok := v.byName[f]
+		if !ok {
+			panic("unknown vocabulary token " + f)
+		}
+		k.toks = append(k.toks, t)
+	}
+	return k
+}
+
+func splitKey(s string) []string {
+	var out []string
+	cur := ""
+	depth := 0
+	for _, r := range s {
+		switch {
+		case r == '<':
+			depth++
+			cur += string(r)
+		case r == '>':
+			depth--
+			cur += string(r)
+		case r == ' ' && depth == 0:
+			if cur != "" {
+				out = append(out, cur)
+			}
+			cur = ""
+		default:
+			cur += string(r)
+		}
+	}
+	if cur != "" {
+		out = append(out, cur)
+	}
+	return out
+}
+
+// ---------------------------------------------------------------- comparator report (root cause information)
+
+type cmpPair struct {
+	A     string `json:"a"`
+	B     string `json:"b"`
+	Kind  string `json:"kind"`
+	Cause string `json:"cause"`
+}
+
+// why are two unequal placeholder tokens not ordered? (classification of the inconsistency)
+func pairCause(a, b *token.Token) string {
+	if a.Type != token.ALIAS_PARAMETER || b.Type != token.ALIAS_PARAMETER || a.AliasInfo == nil || b.AliasInfo == nil {
+		return "non-placeholder tokens"
+	}
+	if a.AliasInfo.IsReference != b.AliasInfo.IsReference {
+		return "placeholders differing in reference-ness are not ordered"
+	}
+	sa, sb := a.AliasInfo.Type.String(), b.AliasInfo.Type.String()
+	ua, ub := stripAliasName(a.AliasInfo.Type), stripAliasName(b.AliasInfo.Type)
+	if sa == sb || ua == ub {
+		return "look-alike placeholder types: tokenLess equal-by-name, tokenEqual distinct"
+	}
+	return "placeholders with differently named types are not ordered"
+}
+
+// printed name with aliases replaced by their targets (harness-side, no GetUnderlying)
+func stripAliasName(t ddptypes.Type) string {
+	switch v := t.(type) {
+	case *ddptypes.TypeAlias:
+		return stripAliasName(v.Underlying)
+	case ddptypes.ListType:
+		return "L(" + stripAliasName(v.ElementType) + ")"
+	}
+	return t.String()
+}
+
+func inconsistency(a, b *token.Token) string {
+	e := parser.VerifTokenEqual(a, b)
+	lab, lba := parser.VerifTokenLess(a, b), parser.VerifTokenLess(b, a)
+	switch {
+	case e && (lab || lba):
+		return "eq and less"
+	case lab && lba:
+		return "less both ways"
+	case !e && !lab && !lba:
+		return "unequal but unordered"
+	}
+	return ""
+}
+
+// ---------------------------------------------------------------- model + history runner
+
+type mEntry struct {
+	key vKey
+	val ast.Alias
+	id  int
+}
+
+func keysEqual(a, b vKey) bool {
+	if len(a.toks) != len(b.toks) {
+		return false
+	}
+	for i := range a.toks {
+		if !parser.VerifTokenEqual(a.toks[i].tok, b.toks[i].tok) {
+			return false
+		}
+	}
+	return true
+}
+
+type trieBad struct {
+	Law      string   `json:"law"`
+	Cause    string   `json:"cause"`
+	Universe string   `json:"universe"`
+	History  []string `json:"history"`
+	Key      string   `json:"key"`
+	Got      string   `json:"got"`
+	Want     string   `json:"want"`
+	Pairs    []string `json:"inconsistent_pairs,omitempty"`
+	Stack    string   `json:"stack,omitempty"`
+}
+
+type trieStats struct {
+	Histories      int            `json:"histories"`
+	Exhaustive     int            `json:"exhaustive_histories"`
+	Random         int            `json:"random_histories"`
+	Ops            int            `json:"operations"`
+	ContainsChecks int            `json:"contains_checks"`
+	SearchChecks   int            `json:"search_checks"`
+	SearchHits     int            `json:"search_values_found"`
+	DupRejected    int            `json:"duplicate_declarations_rejected"`
+	Inserted       int            `json:"keys_inserted"`
+	Universes      int            `json:"universes"`
+	MaxKeys        int            `json:"max_keys_in_history"`
+	VocabTokens    int            `json:"vocabulary_tokens"`
+	CmpPairs       int            `json:"comparator_pairs"`
+	CmpBad         map[string]int `json:"comparator_inconsistent_pairs_by_cause"`
+	CmpTransBad    int            `json:"comparator_transitivity_failures"`
+	Bad            int            `json:"bad"`
+	BadBy          map[string]int `json:"bad_by_law_and_cause"`
+	BadHistories   int            `json:"bad_histories"`
+}
+
+type runner struct {
+	st       *trieStats
+	emitted  map[string]int
+	universe string
+}
+
+func (r *runner) report(law string, hist []string, toks []*vTok, key, got, want, stack string) {
+	// root cause: inconsistent comparator pairs among the tokens that took part in the history
+	causes := map[string]bool{}
+	var pairs []string
+	for i := 0; i < len(toks); i++ {
+		for j := i + 1; j < len(toks); j++ {
+			if k := inconsistency(toks[i].tok, toks[j].tok); k != "" {
+				c := pairCause(toks[i].tok, toks[j].tok)
+				causes[c] = true
+				if len(pairs) < 6 {
+					pairs = append(pairs, toks[i].desc+" / "+toks[j].desc+": "+k)
+				}
+			}
+		}
+	}
+	cl := make([]string, 0, len(causes))
+	for c := range causes {
+		cl = append(cl, c)
+	}
+	sort.Strings(cl)
+	cause := strings.Join(cl, "; ")
+	if cause == "" {
+		cause = "none: key predicates consistent on the tokens of this history (trie / ordered map logic)"
+	}
+	r.st.Bad++
+	k := law + " | " + cause
+	r.st.BadBy[k]++
+	r.emitted[k]++
+	if r.emitted[k] <= 3 {
+		emit("BAD", trieBad{Law: law, Cause: cause, Universe: r.universe, History: append([]string(nil), hist...), Key: key, Got: got, Want: want, Pairs: pairs, Stack: stack})
+	}
+}
+
+type op struct {
+	kind string // declare | overwrite | call | copy
+	key  vKey
+	call []*vTok // for call: the token sequence of the call site (arguments are literal tokens)
+}
+
+func distinctToks(keys []vKey) []*vTok {
+	seen := map[*vTok]bool{}
+	var out []*vTok
+	for _, k := range keys {
+		for _, t := range k.toks {
+			if !seen[t] {
+				seen[t] = true
+				out = append(out, t)
+			}
+		}
+	}
+	return out
+}
+
+// runs one history; universe = every key that is probed after each operation
+func (r *runner) run(universe []vKey, ops []op) (ok bool) {
+	st := r.st
+	st.Histories++
+	trie := at.New[*token.Token, ast.Alias](parser.VerifTokenEqual, parser.VerifTokenLess)
+	var model []*mEntry
+	var hist []string
+	ids := map[ast.Alias]int{}
+	nextID := 0
+	var touched []vKey // keys that took part in the history so far (root cause is looked for among their tokens)
+	var probing *vKey
+	failed := false
+	lawsSeen := map[string]bool{}
+	fail := func(law, key, got, want, stack string) {
+		if !failed {
+			st.BadHistories++
+		}
+		failed = true
+		if lawsSeen[law] { // every law at most once per history
+			return
+		}
+		lawsSeen[law] = true
+		tk := touched
+		if probing != nil {
+			tk = append(append([]vKey(nil), touched...), *probing)
+		}
+		r.report(law, hist, distinctToks(tk), key, got, want, stack)
+	}
+	find := func(k vKey) *mEntry {
+		for _, e := range model {
+			if keysEqual(e.key, k) {
+				return e
+			}
+		}
+		return nil
+	}
+	guard := func(what, key string, f func()) (panicked bool) {
+		defer func() {
+			if p := recover(); p != nil {
+				panicked = true
+				buf := make([]byte, 1<<14)
+				stk := string(buf[:runtime.Stack(buf, false)])
+				fail("no panic in "+what, key, fmt.Sprint(p), "normal return", innermostFrame(stk))
+			}
+		}()
+		f()
+		return false
+	}
+	exists := func(t *at.Trie[*token.Token, ast.Alias], k vKey) (bool, ast.Alias) {
+		// parser.aliasExists
+		okc, v := t.Contains(k.key())
+		return okc && v != nil, v
+	}
+	checkAll := func(t *at.Trie[*token.Token, ast.Alias], tag string) {
+		defer func() { probing = nil }()
+		for ki := range universe {
+			k := universe[ki]
+			probing = &universe[ki]
+			st.ContainsChecks++
+			var ex bool
+			var v ast.Alias
+			if guard("Contains", k.String(), func() { ex, v = exists(t, k) }) {
+				return
+			}
+			e := find(k)
+			switch {
+			case e != nil && !ex:
+				fail("inserted key is found by Contains (else a duplicate declaration of it is accepted)"+tag, k.String(), "absent", fmt.Sprintf("present (id %d)", e.id), "")
+			case e == nil && ex:
+				fail("never inserted key is not found by Contains"+tag, k.String(), fmt.Sprintf("present (id %d)", ids[v]), "absent", "")
+			case e != nil && v != e.val:
+				fail("Contains returns the value stored for that key"+tag, k.String(), fmt.Sprintf("id %d", ids[v]), fmt.Sprintf("id %d", e.id), "")
+			}
+		}
+		probing = nil
+		// enumerate everything (generateGenericContext): every stored alias exactly once
+		st.SearchChecks++
+		var got []ast.Alias
+		if guard("Search(enumerate)", "*", func() {
+			got = t.Search(func(i int, k *token.Token) (*token.Token, bool) { return k, true })
+		}) {
+			return
+		}
+		st.SearchHits += len(got)
+		cnt := map[ast.Alias]int{}
+		for _, g := range got {
+			cnt[g]++
+		}
+		for _, e := range model {
+			if cnt[e.val] != 1 {
+				fail("Search over everything yields each stored alias exactly once"+tag, e.key.String(), fmt.Sprintf("%d times", cnt[e.val]), "once", "")
+				break
+			}
+		}
+		if len(got) != len(model) {
+			fail("Search over everything yields only stored aliases"+tag, "*", fmt.Sprintf("%d values", len(got)), fmt.Sprintf("%d values", len(model)), "")
+		}
+	}
+	// a call site: the token sequence is matched the way parser.alias() does it (placeholders
+	// consume one argument token, other key tokens are compared with the next token)
+	call := func(seq []*vTok) {
+		st.SearchChecks++
+		var got []ast.Alias
+		desc := vKey{seq}.String()
+		if guard("Search(call)", desc, func() {
+			cur := 0
+			var starts []int
+			got = trie.Search(func(node int, k *token.Token) (*token.Token, bool) {
+				if node < len(starts) {
+					if starts[node] == -1 {
+						starts[node] = cur
+					} else {
+						cur = starts[node]
+					}
+				} else {
+					for len(starts) <= node {
+						starts = append(starts, -1)
+					}
+					starts[node] = cur
+				}
+				if cur >= len(seq) {
+					return nil, false
+				}
+				if k.Type == token.ALIAS_PARAMETER {
+					cur++ // every token of the vocabulary can start an argument
+					return k, true
+				}
+				t := seq[cur].tok
+				cur++
+				return t, true
+			})
+		}) {
+			return
+		}
+		st.SearchHits += len(got)
+		cnt := map[ast.Alias]int{}
+		for _, g := range got {
+			cnt[g]++
+		}
+		want := 0
+		for _, e := range model {
+			m := len(e.key.toks) <= len(seq)
+			for i := 0; m && i < len(e.key.toks); i++ {
+				kt := e.key.toks[i].tok
+				if kt.Type == token.ALIAS_PARAMETER {
+					continue
+				}
+				if seq[i].tok.Type == token.ALIAS_PARAMETER || !parser.VerifTokenEqual(kt, seq[i].tok) {
+					m = false
+				}
+			}
+			if m {
+				want++
+				if cnt[e.val] != 1 {
+					fail("a call matching a stored alias finds it exactly once", desc, fmt.Sprintf("alias %q found %d times", e.key.String(), cnt[e.val]), "once", "")
+					return
+				}
+			} else if cnt[e.val] != 0 {
+				fail("a call finds only aliases whose pattern it matches", desc, fmt.Sprintf("alias %q found", e.key.String()), "not found", "")
+				return
+			}
+		}
+		if len(got) != want {
+			fail("a call finds only stored aliases", desc, fmt.Sprintf("%d values", len(got)), fmt.Sprintf("%d values", want), "")
+		}
+	}
+
+	for _, o := range ops {
+		st.Ops++
+		if o.kind == "call" {
+			touched = append(touched, vKey{o.call})
+		} else if o.kind != "copy" {
+			touched = append(touched, o.key)
+		}
+		switch o.kind {
+		case "declare":
+			hist = append(hist, "declare "+o.key.String())
+			var ex bool
+			if guard("Contains", o.key.String(), func() { ex, _ = exists(trie, o.key) }) {
+				return false
+			}
+			e := find(o.key)
+			if e != nil && !ex {
+				fail("duplicate declaration is detected", o.key.String(), "aliasExists = false", fmt.Sprintf("aliasExists = true (equal to inserted %q)", e.key.String()), "")
+				return false
+			}
+			if e == nil && ex {
+				fail("new alias is not reported as existing", o.key.String(), "aliasExists = true", "aliasExists = false", "")
+				return false
+			}
+			if ex {
+				st.DupRejected++
+				hist[len(hist)-1] += "  -> rejected (exists)"
+			} else {
+				nextID++
+				val := &ast.FuncAlias{Negated: nextID%2 == 0, Original: token.Token{Literal: fmt.Sprint(nextID)}}
+				ids[val] = nextID
+				if guard("Insert", o.key.String(), func() { trie.Insert(o.key.key(), val) }) {
+					return false
+				}
+				model = append(model, &mEntry{key: o.key, val: val, id: nextID})
+				st.Inserted++
+				hist[len(hist)-1] += fmt.Sprintf("  -> inserted id %d", nextID)
+			}
+		case "overwrite":
+			// Insert on an equal key replaces the value (trie.Insert contract, used on copies)
+			e := find(o.key)
+			if e == nil {
+				continue
+			}
+			nextID++
+			val := &ast.FuncAlias{Negated: nextID%2 == 0, Original: token.Token{Literal: fmt.Sprint(nextID)}}
+			ids[val] = nextID
+			hist = append(hist, fmt.Sprintf("insert-again %s -> id %d", o.key.String(), nextID))
+			if guard("Insert", o.key.String(), func() { trie.Insert(o.key.key(), val) }) {
+				return false
+			}
+			e.val, e.id = val, nextID
+		case "call":
+			hist = append(hist, "call "+vKey{o.call}.String())
+			call(o.call)
+			hist = hist[:len(hist)-1]
+			if failed {
+				return false
+			}
+			continue
+		case "copy":
+			// at.Copy (generic instantiation context): same content, independent of the original
+			hist = append(hist, "copy")
+			var cp *at.Trie[*token.Token, ast.Alias]
+			if guard("Copy", "*", func() { cp = at.Copy(trie) }) {
+				return false
+			}
+			checkAll(cp, " (on a copy)")
+			if failed {
+				return false
+			}
+			hist = hist[:len(hist)-1]
+			continue
+		}
+		checkAll(trie, "")
+		// every stored alias is callable: a call spelled like its own key finds it
+		for _, e := range model {
+			call(e.key.toks)
+		}
+		if failed {
+			return false // model and store have diverged: the history ends here
+		}
+	}
+	if len(model) > st.MaxKeys {
+		st.MaxKeys = len(model)
+	}
+	return true
+}
+
+// all ordered selections of at most maxLen distinct keys of the universe
+func (r *runner) exhaustive(name string, universe []vKey, maxLen int) {
+	r.universe = name
+	r.st.Universes++
+	n := len(universe)
+	used := make([]bool, n)
+	var seq []int
+	var rec func()
+	rec = func() {
+		if len(seq) > 0 {
+			ops := make([]op, len(seq))
+			for i, s := range seq {
+				ops[i] = op{kind: "declare", key: universe[s]}
+			}
+			r.st.Exhaustive++
+			if !r.run(universe, ops) {
+				return // every extension repeats this failure
+			}
+		}
+		if len(seq) == maxLen {
+			return
+		}
+		for i := 0; i < n; i++ {
+			if used[i] {
+				continue
+			}
+			used[i] = true
+			seq = append(seq, i)
+			rec()
+			seq = seq[:len(seq)-1]
+			used[i] = false
+		}
+	}
+	rec()
+}
+
+func trieMain(args []string) {
+	fs := flag.NewFlagSet("trie", flag.ExitOnError)
+	maxLen := fs.Int("maxlen", 4, "exhaustive: all insertion orders of at most this many keys per universe")
+	usize := fs.Int("usize", 7, "exhaustive: keys per universe")
+	random := fs.Int("random", 0, "number of random histories")
+	rkeys := fs.Int("rkeys", 12, "random: keys per history")
+	seed := fs.Uint64("seed", 0, "seed")
+	part := fs.Int("part", 0, "partition (universes are dealt round-robin)")
+	parts := fs.Int("parts", 1, "number of partitions")
+	cmp := fs.Bool("cmp", false, "report the comparator pairs")
+	fs.Parse(args)
+	begin("trie")
+	v := buildVocab()
+	st := &trieStats{CmpBad: map[string]int{}, BadBy: map[string]int{}, VocabTokens: len(v.all())}
+	r := &runner{st: st, emitted: map[string]int{}}
+
+	if *cmp {
+		all := v.all()
+		shown := map[string]int{}
+		for i, a := range all {
+			for j, b := range all {
+				if i >= j {
+					continue
+				}
+				st.CmpPairs++
+				if k := inconsistency(a.tok, b.tok); k != "" {
+					c := pairCause(a.tok, b.tok)
+					st.CmpBad[k+": "+c]++
+					shown[c]++
+					if shown[c] <= 4 {
+						emit("CMP", cmpPair{A: a.desc, B: b.desc, Kind: k, Cause: c})
+					}
+				}
+			}
+		}
+		// strict weak order: less transitive, and "unordered" transitive (needed by binary search)
+		for _, a := range all {
+			for _, b := range all {
+				for _, c := range all {
+					lab, lbc, lac := parser.VerifTokenLess(a.tok, b.tok), parser.VerifTokenLess(b.tok, c.tok), parser.VerifTokenLess(a.tok, c.tok)
+					if lab && lbc && !lac {
+						st.CmpTransBad++
+					}
+				}
+			}
+		}
+	}
+
+	// ---------------- universes for the exhaustive part
+	type uni struct {
+		name string
+		keys []string
+	}
+	unis := []uni{
+		{"prefix-structure", []string{"foo", "foo bar", "foo bar zeige", "foo <Zahl>", "foo <Zahl> bar", "foo 1", "foo \"s\"", "bar", "bar foo", "<Zahl> foo"}},
+		{"primitive placeholders", []string{"zeige <Zahl>", "zeige <Kommazahl>", "zeige <Byte>", "zeige <Text>", "zeige <Wahrheitswert>", "zeige <Buchstabe>", "zeige <Variable>", "zeige <L(Zahl)>", "zeige <L(Text)>", "zeige <Kreis>"}},
+		{"value vs Referenz", []string{"zeige <Zahl>", "zeige <Zahl Ref>", "zeige <Text>", "zeige <Text Ref>", "zeige <L(Zahl)>", "zeige <L(Zahl) Ref>", "zeige <Kreis>", "zeige <Kreis Ref>", "zeige <Variable Ref>", "zeige <Byte>"}},
+		{"alias vs target", []string{"zeige <Zahl>", "zeige <Alias(Zahl)>", "zeige <L(Zahl)>", "zeige <L(Alias(Zahl))>", "zeige <Alias(Zahl) Ref>", "zeige <Zahl Ref>", "zeige <Text>", "zeige <Kreis>", "zeige <Punkt#1>", "zeige <Alias(Punkt#1)>"}},
+		{"two placeholders", []string{"<Zahl> foo <Zahl>", "<Zahl> foo <Text>", "<Text> foo <Zahl>", "<Text> foo <Text>", "<Zahl> bar <Zahl>", "<Zahl> foo", "<Zahl Ref> foo <Zahl>", "<Zahl> foo <Zahl Ref>", "<Alias(Zahl)> foo <Alias(Zahl)>", "<Kreis> foo <Zahl>"}},
+		{"literals and words", []string{"foo 1", "foo 2", "foo \"s\"", "foo <Zahl>", "foo <Text>", "1 foo", "2 foo", "foo 1 bar", "foo 1 <Zahl>", "zeige 1"}},
+		{"two look-alike Kombinationen", []string{"zeige <Punkt#1>", "zeige <Punkt#2>", "zeige <Zahl>", "zeige <Text>", "zeige <Kreis>", "zeige <Punkt#1 Ref>", "zeige <L(Punkt#1)>", "zeige <L(Punkt#2)>", "zeige <Variable>", "zeige <Byte>"}},
+		{"three look-alike Kombinationen", []string{"zeige <Punkt#1>", "zeige <Punkt#2>", "zeige <Punkt#3>", "zeige <Zahl>", "zeige <Text>", "zeige <Kreis>", "zeige <Punkt#1 Ref>", "zeige <Variable>", "zeige <Byte>", "zeige <L(Zahl)>"}},
+		{"four look-alike Kombinationen", []string{"zeige <Punkt#1>", "zeige <Punkt#2>", "zeige <Punkt#3>", "zeige <Punkt#4>", "zeige <Zahl>", "zeige <Text>", "zeige <Kreis>", "zeige <Alias(Punkt#1)>", "zeige <Variable>", "zeige <Byte>"}},
+		{"three look-alike definitions", []string{"zeige <Nummer#1>", "zeige <Nummer#2>", "zeige <Nummer#3>", "zeige <Zahl>", "zeige <Text>", "zeige <Kreis>", "zeige <Nummer#1 Ref>", "zeige <Variable>", "zeige <Byte>", "zeige <L(Zahl)>"}},
+		{"three look-alike lists", []string{"zeige <L(Punkt#1)>", "zeige <L(Punkt#2)>", "zeige <L(Punkt#3)>", "zeige <L(Zahl)>", "zeige <L(Text)>", "zeige <Kreis>", "zeige <Punkt#1>", "zeige <Variable>", "zeige <Byte>", "zeige <L(Alias(Zahl))>"}},
+		{"look-alikes below a shared prefix", []string{"foo <Zahl> <Punkt#1>", "foo <Zahl> <Punkt#2>", "foo <Zahl> <Punkt#3>", "foo <Zahl>", "foo <Zahl> bar", "foo <Text> <Punkt#1>", "foo <Zahl> <Kreis>", "foo", "foo <Zahl> <Zahl>", "foo <Zahl> <Punkt#1> bar"}},
+	}
+	for ui, u := range unis {
+		if ui%*parts != *part {
+			continue
+		}
+		keys := make([]vKey, 0, len(u.keys))
+		for i, s := range u.keys {
+			if i >= *usize {
+				break
+			}
+			keys = append(keys, v.mk(s))
+		}
+		r.exhaustive(u.name, keys, *maxLen)
+	}
+
+	// ---------------- random histories
+	all := v.all()
+	for i := 0; i < *random; i++ {
+		if i%*parts != *part {
+			continue
+		}
+		rg := newRng(*seed, uint64(i))
+		// a small token pool per history so that keys collide and share prefixes
+		pool := make([]*vTok, 0, 8)
+		np := 3 + rg.intn(5)
+		for len(pool) < np {
+			var t *vTok
+			switch rg.intn(10) {
+			case 0, 1, 2:
+				t = v.words[rg.intn(len(v.words))]
+			case 3:
+				t = v.lits[rg.intn(len(v.lits))]
+			default:
+				t = v.params[rg.intn(len(v.params))]
+			}
+			pool = append(pool, t)
+		}
+		if rg.intn(4) == 0 {
+			pool = append(pool, all[rg.intn(len(all))])
+		}
+		nk := 2 + rg.intn(*rkeys-1)
+		universe := make([]vKey, 0, nk+4)
+		for len(universe) < nk {
+			l := 1 + rg.intn(4)
+			var k vKey
+			if len(universe) > 0 && rg.intn(3) == 0 {
+				// extend or vary an existing key
+				b := universe[rg.intn(len(universe))]
+				k.toks = append(k.toks, b.toks...)
+				if rg.intn(2) == 0 && len(k.toks) < 5 {
+					k.toks = append(k.toks, pool[rg.intn(len(pool))])
+				} else {
+					k.toks[rg.intn(len(k.toks))] = pool[rg.intn(len(pool))]
+				}
+			} else {
+				for j := 0; j < l; j++ {
+					k.toks = append(k.toks, pool[rg.intn(len(pool))])
+				}
+			}
+			universe = append(universe, k)
+		}
+		var ops []op
+		for _, k := range universe {
+			ops = append(ops, op{kind: "declare", key: k})
+			switch rg.intn(8) {
+			case 0:
+				ops = append(ops, op{kind: "overwrite", key: universe[rg.intn(len(universe))]})
+			case 1:
+				ops = append(ops, op{kind: "copy"})
+			case 2, 3:
+				// a call site built from literal/word tokens
+				var seq []*vTok
+				for j := 0; j < 1+rg.intn(4); j++ {
+					if rg.intn(2) == 0 {
+						seq = append(seq, v.words[rg.intn(len(v.words))])
+					} else {
+						seq = append(seq, v.lits[rg.intn(len(v.lits))])
+					}
+				}
+				ops = append(ops, op{kind: "call", call: seq})
+			case 4:
+				ops = append(ops, op{kind: "declare", key: universe[rg.intn(len(universe))]})
+			}
+		}
+		// some never inserted keys are probed as well
+		probe := append([]vKey(nil), universe...)
+		for j := 0; j < 3; j++ {
+			var k vKey
+			for t := 0; t < 1+rg.intn(3); t++ {
+				k.toks = append(k.toks, all[rg.intn(len(all))])
+			}
+			probe = append(probe, k)
+		}
+		r.universe = fmt.Sprintf("random #%d", i)
+		st.Random++
+		// does the history contain look-alike types at all? (evidence that the clean part is not vacuous)
+		r.run(probe, ops)
+	}
+	emit("AGG", st)
+}
